@@ -16,7 +16,7 @@ import sys
 import weakref
 
 from pyoak.node import NODE_REGISTRY
-from pyoak.origin import (NO_ORIGIN, CodeOrigin, MemoryTextSource, MultiOrigin, Source, XMLFileOrigin, XMLPath,
+from pyoak.origin import (SOURCE_OPTIMIZED_SERIALIZATION_KEY, NO_ORIGIN, CodeOrigin, MemoryTextSource, MultiOrigin, Source, XMLFileOrigin, XMLPath,
                           get_code_range, merge_origins)
 from pyoak.serialize import SerializationOption
 
@@ -180,9 +180,52 @@ def cases(rng: random.Random, tier: str):
             if a is None:
                 break
         del a, t0
+    # index-based source serialization, in-process (sources are registered: indexes resolve to the same objects)
+    for _ in range(15 if tier == "quick" else 300):
+        g = zoo.Gen(rng, origins=True, share=0.1)
+        g.origin = lambda: rich_origin(rng)
+        a = g.tree(rng.choice([2, 5, 10]))
+        g.pool.clear()
+        fail = None
+        opt = {SOURCE_OPTIMIZED_SERIALIZATION_KEY: True}
+        try:
+            fmt = rng.choice(FORMATS)
+            payload = serialize(a, fmt, opt)
+            snap = snapshot(a)
+            refs = [weakref.ref(x) for x in [a] + [c for c, *_ in zoo.positions(a)]]
+            cls, desc = type(a), zoo.show(a) + f" format={fmt} source_optimized"
+            if rng.random() < 0.5:
+                a = None
+                gc.collect()
+            kw = {"serialization_options": opt}
+            b = {"dict": cls.as_obj, "json": cls.from_json, "msgpack": cls.from_msgpck, "yaml": cls.from_yaml}[fmt](payload, **kw)
+            fail = check_positions(snap, b, refs)
+            del b, refs, snap
+        except Exception as e:  # noqa
+            fail = f"round trip raised {type(e).__name__}: {e}"
+        yield Case("roundtrip:source-index", None, None, True, desc, oracle_fail=fail,
+                   sig=f"roundtrip|source-index|{(fail or '').split(':')[0][:30]}")
+        del a
     # fresh process
     work = VERIF / ".work"
     work.mkdir(exist_ok=True)
+    # index-based sources across processes: the sources are serialized separately and loaded first
+    srcs = Source.all_as_dict()
+    for _ in range(10 if tier == "quick" else 100):
+        g = zoo.Gen(rng, origins=True, share=0.0)
+        g.origin = lambda: rich_origin(rng)
+        a = g.tree(rng.choice([2, 5, 10]))
+        g.pool.clear()
+        srcs = Source.all_as_dict()
+        try:
+            payload = serialize(a, "json", {SOURCE_OPTIMIZED_SERIALIZATION_KEY: True})
+            fresh_items.append(("idx:json", type(a).__name__, payload, snapshot(a)))
+            fresh_desc.append(zoo.show(a) + " format=json source_optimized (sources loaded separately)")
+        except Exception:  # noqa
+            pass
+        del a
+    fresh_items = [("sources", "", srcs, None)] + fresh_items
+    fresh_desc = ["<sources>"] + fresh_desc
     f = work / f"c04-{os.getpid()}.pkl"
     res = None
     try:
